@@ -150,10 +150,37 @@ class Property(cssutils.util.Base):
                 )
 
             if wellformed:
-                self.wellformed = True
-                self.name = nametokens
-                self.propertyValue = valuetokens
-                self.priority = prioritytokens
+                # an error raised half way must leave the property as it was
+                old = (
+                    self.wellformed,
+                    self._name,
+                    self._literalname,
+                    list(self.seqs),
+                    self._priority,
+                    self._literalpriority,
+                )
+                oldvalue = self.seqs[1].cssText
+                try:
+                    self.wellformed = True
+                    self.name = nametokens
+                    self.propertyValue = valuetokens
+                    self.priority = prioritytokens
+                except Exception:
+                    (
+                        self.wellformed,
+                        self._name,
+                        self._literalname,
+                        self.seqs,
+                        self._priority,
+                        self._literalpriority,
+                    ) = old
+                    if self.seqs[1].cssText != oldvalue:
+                        # the value object is changed in place
+                        if oldvalue:
+                            self.seqs[1].cssText = oldvalue
+                        else:
+                            self.seqs[1] = PropertyValue(parent=self)
+                    raise
 
                 # also invalid values are set!
 
